@@ -62,6 +62,8 @@ PROPS.update({
 # scenarios that need no renderer: also driven against the crate compiled without its `svg` / `image` features
 BARE_SCENS = {"cells", "lengths", "structured", "nearblocks", "formats", "thresholds", "giant", "maskgroups", "candgroups", "modes", "total", "corrupt", "discovered",
               "text", "aftermath", "walk", "histories"}
+# scenarios of the SVG renderer alone: also driven against the crate compiled with `svg` but without `image`
+SVGONLY_SCENS = {"svg", "frames", "callbacks", "svgdiscovered", "sessions"}
 NO_TWIN = {"birthday"}        # a sweep that only selects inputs (25 CPU-minutes in the thorough tier): driven against one build configuration
 # scenario -> (fuzz target, seconds per tier)
 DISCOVER = {"discovered": ("qrbuild", {"quick": 25, "thorough": 300}), "candidates": ("qrbuild", {"quick": 25, "thorough": 300}), "svgdiscovered": ("svgimage", {"quick": 15, "thorough": 120})}
@@ -262,6 +264,7 @@ def run_property(pid, tier, seed, replay=None, spec=None):
     bare_stats = {"scenarios": 0, "identical": 0}
     ship_lines = []
     bare_lines = []
+    svgonly_lines = []
     for scen_index, (kind, scen, required) in enumerate(spec["scen"]):
         if replay and hdr.get("scenario") and hdr["scenario"] != scen:
             continue
@@ -287,8 +290,8 @@ def run_property(pid, tier, seed, replay=None, spec=None):
             continue
         if replay and hdr.get("build") == "shipping":
             binary = runner.build_harness(runner.SHIP[used_kind])
-        if replay and hdr.get("build") == "bare":
-            binary = runner.build_harness("bare")
+        if replay and hdr.get("build") in ("bare", "svgonly"):
+            binary = runner.build_harness(hdr["build"])
         scen_full, variant = scen, ""
         if ":" in scen:
             scen, variant = scen.split(":", 1)
@@ -357,6 +360,8 @@ def run_property(pid, tier, seed, replay=None, spec=None):
             twins.append(("shipping", runner.SHIP[used_kind]))
             if used_kind == "core" and scen in BARE_SCENS:
                 twins.append(("bare", "bare"))
+            if used_kind == "core" and scen in SVGONLY_SCENS:
+                twins.append(("svgonly", "svgonly"))
         for tname, tkind in twins:
             try:
                 ship = runner.build_harness(tkind)
@@ -367,14 +372,14 @@ def run_property(pid, tier, seed, replay=None, spec=None):
                 evs = evp[:-len(".ndjson")] + f".{tname}.ndjson"
                 runner.drive(ship, scen, seed, tier, evs, extra=extra)
                 same = open(evs, "rb").read() == open(evp, "rb").read()
-                st = ship_stats if tname == "shipping" else bare_stats
+                st = ship_stats if tname == "shipping" else bare_stats        # (bare and svgonly are counted together: feature sets)
                 st["scenarios"] += 1
                 st["identical"] += 1 if same else 0
                 if not same:
                     r2 = runner.validate_trace(evs, os.path.join(wd, f"tv_{tname}_" + scen + variant))
                     tv_total["events"] += r2["events"]
                     tv_total["diags"] += [dict(d, scenario=scen_full, build=tname) for d in r2["diags"]]
-                    (ship_lines if tname == "shipping" else bare_lines).extend(l for l in open(evs).read().split("\n") if l.strip())
+                    {"shipping": ship_lines, "bare": bare_lines, "svgonly": svgonly_lines}[tname].extend(l for l in open(evs).read().split("\n") if l.strip())
                 os.remove(evs)
     # 3. verdict: only diagnostics of this property; known findings subtracted
     own = [d for d in tv_total["diags"] if d["property"] == pid or (pid == "G01" and d["property"].startswith("G"))]
@@ -421,7 +426,7 @@ def run_property(pid, tier, seed, replay=None, spec=None):
         "other_property_diagnostics": others,
         "spec_invariants": spec.get("invariants", ""),
         "scenarios": ran,
-        "bare_build": dict(bare_stats, note="scenarios that need no renderer are driven a third time against the crate compiled WITHOUT its svg / image features; identical trace shares the verdict, a different one is judged too"),
+        "bare_build": dict(bare_stats, note="scenarios that need no renderer are driven a third time against the crate compiled WITHOUT its svg / image features, the SVG scenarios against the crate with svg but without image; identical trace shares the verdict, a different one is judged too"),
         "shipping_build": dict(ship_stats, note="every scenario is driven a second time against the crate compiled without debug assertions and overflow checks (same harness flavour, shipping profile); a byte-identical trace shares the verdict, a different one is judged too"),
         "notes": notes + [json.dumps(x)[:400] for x in tv_total["notes"][:3]],
         "exhaustive": False,
@@ -433,8 +438,8 @@ def run_property(pid, tier, seed, replay=None, spec=None):
     nviol = 0
     if fresh:
         os.makedirs(os.path.join(ROOT, "replay"), exist_ok=True)
-        byid = {"": {}, "shipping": {}, "bare": {}}
-        for b_, ls_ in (("", all_lines), ("shipping", ship_lines), ("bare", bare_lines)):
+        byid = {"": {}, "shipping": {}, "bare": {}, "svgonly": {}}
+        for b_, ls_ in (("", all_lines), ("shipping", ship_lines), ("bare", bare_lines), ("svgonly", svgonly_lines)):
             for l in ls_:
                 m = re.search(r'"id":(\d+)', l)
                 if m:
@@ -451,6 +456,8 @@ def run_property(pid, tier, seed, replay=None, spec=None):
                 why += " [crate compiled without debug assertions and overflow checks; the default test profile does not show it]"
             if build == "bare":
                 why += " [crate compiled without its svg / image features]"
+            if build == "svgonly":
+                why += " [crate compiled with svg but without image]"
             with open(path, "w") as f:
                 f.write(json.dumps({"property": pid, "why": why, "scenario": scen, "build": build, "seed": seed, "tier": tier, "ids": ids, "grps": grps, "count": len(ds),
                                     "replay": f"./check {pid} --replay {path}"}) + "\n")
